@@ -133,7 +133,8 @@ def gen_case(rng, tier, g):
                               else ['sim', 'sim', 'plain']),
             'shape': shape, 'consumer': rng.choice(CONSUMERS),
             'config': draw_config(rng, 0.1, exclude=('sort_buffersize',)),
-            'wrap': rng.random() < 0.2,
+            'wrap': rng.choice([True, 'cat']) if rng.random() < 0.2
+            else False,
             'knobs': {'sort_buffersize': rng.choice([None, None, 2])}}
 
 
@@ -205,8 +206,40 @@ def run_case(case):
                 why = type(not_a_harness_bug(ex)).__name__
             if why is not None:
                 gc.collect()
+                # an evaluation that fails is a partial evaluation: the
+                # inputs are as they were
+                tables = [dec_table(t) for t in case['tables']]
+                snap_src = snapshot(tables)
+                w = None
+                try:
+                    w, views = build(e, stack, None,
+                                     mode='plain' if case.get('src') ==
+                                     'plain' else 'alias', tempdir=sb.path,
+                                     tables=tables,
+                                     wrap_sources=case.get('wrap', False))
+                    for v in views:
+                        for _ in iter(v):
+                            pass
+                except Exception:
+                    pass
+                finally:
+                    views = v = None
+                    if w is not None:
+                        w.close()
+                probes['failing-evaluation'] = 1
+                if rec.fails:
+                    probes['recipe:' + stack[0][0]] = 1
+                if snapshot(tables) != snap_src:
+                    return outcome(
+                        'violation', vclass='source-mutated',
+                        msg='%s: the evaluation fails (%s) and leaves a '
+                        'source changed: now %r, was %r'
+                        % (label, why, tables,
+                           [dec_table(t) for t in case['tables']]),
+                        sig={'recipe': label, 'vclass': 'source-mutated'},
+                        digest=log.hexdigest(), extra={'group': group})
                 return outcome('trivial', digest=log.hexdigest(),
-                               nontrivial=False,
+                               nontrivial=False, probes=probes,
                                extra={'group': group, 'why': why})
             tables = [dec_table(t) for t in case['tables']]
             snap_src = snapshot(tables)
@@ -218,6 +251,32 @@ def run_case(case):
                              wrap_sources=case.get('wrap', False))
             # (as they were when handed to petl, i.e. before construction)
             snap_args = ('list', tuple(w.arg_snaps))
+            # inputs that are views themselves: what they yield is part of
+            # "every source container"
+            def _input_views():
+                if not case.get('wrap'):
+                    return None
+                out = []
+                for s_ in w.s:
+                    try:
+                        out.append([canon_row(r) for r in iter(s_)])
+                    except Exception as ex:
+                        out.append(type(ex).__name__)
+                return out
+            # (before: from views of the same kind over private copies of
+            # the tables - construction of the pipeline may already have
+            # touched the real ones)
+            snap_views = None
+            if case.get('wrap'):
+                snap_views = []
+                for t_ in case['tables'][:len(w.s)]:
+                    t_ = dec_table(t_)
+                    try:
+                        v_ = e.cat(t_) if case['wrap'] == 'cat' \
+                            else e.wrap(t_)
+                        snap_views.append([canon_row(r) for r in iter(v_)])
+                    except Exception as ex:
+                        snap_views.append(type(ex).__name__)
             items = is_items(stack)
             canon = canon_cell if items else canon_row
 
@@ -267,6 +326,15 @@ def run_case(case):
                         after(sch, ['CONSUME', case.get('consumer'), vi])
                         done_tasks.append(sch.fresh(vi))
                         after(sch, ['FRESH', vi])
+                    if snap_views is not None:
+                        now_views = _input_views()
+                        if now_views != snap_views:
+                            raise Violation(
+                                'input-view-changed',
+                                '%s: a view handed in as an input yields %r '
+                                'after the evaluation, %r before'
+                                % (label, now_views, snap_views))
+                        probes['input-views-compared'] = 1
                     # the caller goes on using the mutable objects it passed
                     # as arguments (adds a mapping, extends a header list):
                     # rows already collected are not views of them
